@@ -300,3 +300,30 @@ package cty
 //@   ensures[C05] dynamic: (=> dyn (= R R0))
 //@   ensures[C05] null_kept: (= (rn_null R) (rn_null R0))
 //@   ensures[C05] inv: (=> isn (rn_ok R))
+//
+// StringPrefixFull: the (normalized) prefix must agree with a known value and with the prefix recorded so
+// far on their overlapping parts - one must be a prefix of the other - otherwise the call panics; the longer
+// of the recorded and the new prefix is kept. Nothing else changes; DynamicVal ignores the refinement.
+// (ctystrings.SafeKnownPrefix, which StringPrefix applies first, is not under contract.)
+//@ func (*cty.RefinementBuilder).StringPrefixFull
+//@   tags C05 C20
+//@   requires (not (= b 0))
+//@   requires (and (wf_deep (b_orig b)) (not (is_marked (b_orig b))))
+//@   let o (b_orig b)
+//@   let w (b_wip b)
+//@   let p (wip_str w)
+//@   let R0 (old ($at<cty.refinementString> p))
+//@   let R ($at<cty.refinementString> p)
+//@   let dyn (= o $G<cty.DynamicVal>)
+//@   let iss ((_ is box<*cty.refinementString>) w)
+//@   let np (nfc prefix)
+//@   let P0 (cty.refinementString.prefix R0)
+//@   let kn_o (and (is_known o) (not (is_null o)))
+//@   let agree_known (or (str.prefixof np (str_of o)) (str.prefixof (str_of o) np))
+//@   let agree_prev (or (str.prefixof np P0) (str.prefixof P0 np))
+//@   requires (=> iss (and (not (= p 0)) (is_string_ty (vty o))))
+//@   panics[C05] (and (not dyn) (or (= w nil.Any) (not iss) (and kn_o (not agree_known)) (not agree_prev)))
+//@   writes cty.refinementString p
+//@   ensures (= result b)
+//@   ensures[C05] dynamic: (=> dyn (= R R0))
+//@   ensures[C05] narrowed: (=> (not dyn) (= R (mk.cty.refinementString (cty.refinementString.refinementNullable R0) (ite (> (str.len np) (str.len P0)) np P0))))
